@@ -72,26 +72,77 @@ func expand64(text string) string {
 	return sb.String()
 }
 
-var pipeChainNames = []string{"dct", "ahx+dct", "dct+flate", "flate+dct"}
+var pipeChainNames = []string{"dct", "ahx+dct", "dct+flate", "flate+dct",
+	// an OUTER stage that fails on the pixels (and whose Close may then report
+	// an error) above the pipe-backed stage
+	"dct+ahx", "dct+lzw", "dct+a85", "dct+rl", "dct+flate-pred", "dct+lzw-pred", "dct+dct", "dct+ccitt", "ahx+dct+ahx"}
 
-// pipeChain wraps JPEG data in one of the chains; the decoded result of the
-// chain is the JPEG's pixels, except for dct+flate where the inflater fails on
-// the pixels (a consumer INSIDE the chain that stops early).
+const numBasicChains = 4
+
+// pipeChain wraps JPEG data in one of the chains; the result is what follows
+// "/Filter " in the dictionary (it may add /DecodeParms).  For the first, second
+// and fourth chain the decoded result is the JPEG's pixels; in all others a
+// stage above the DCT decoder chokes on the pixels: a consumer INSIDE the
+// chain that stops early.
 func pipeChain(kind int, j []byte) (filter string, body []byte) {
-	switch kind % 4 {
+	switch kind % len(pipeChainNames) {
 	case 0:
 		return "/DCTDecode", j
 	case 1:
 		return "[/ASCIIHexDecode /DCTDecode]", []byte(hex.EncodeToString(j) + ">")
 	case 2:
 		return "[/DCTDecode /FlateDecode]", j
-	default:
+	case 3:
 		var z bytes.Buffer
 		zw := zlib.NewWriter(&z)
 		zw.Write(j)
 		zw.Close()
 		return "[/FlateDecode /DCTDecode]", z.Bytes()
+	case 4:
+		return "[/DCTDecode /ASCIIHexDecode]", j
+	case 5:
+		return "[/DCTDecode /LZWDecode]", j
+	case 6:
+		return "[/DCTDecode /ASCII85Decode]", j
+	case 7:
+		return "[/DCTDecode /RunLengthDecode]", j
+	case 8:
+		return "[/DCTDecode /FlateDecode] /DecodeParms [null << /Predictor 12 /Columns 7 >>]", j
+	case 9:
+		return "[/DCTDecode /LZWDecode] /DecodeParms [null << /Predictor 2 /Columns 100000 /Colors 3 >>]", j
+	case 10:
+		return "[/DCTDecode /DCTDecode]", j
+	case 11:
+		return "[/DCTDecode /CCITTFaxDecode] /DecodeParms [null << /K -1 /Columns 64 >>]", j
+	default:
+		return "[/ASCIIHexDecode /DCTDecode /ASCIIHexDecode]", []byte(hex.EncodeToString(j) + ">")
 	}
+}
+
+// pipeOuterCorpus: every chain on a stream that the walk drains, that a page
+// uses as an image, and on a few internal decode sites.
+func pipeOuterCorpus() []corpusEntry {
+	var res []corpusEntry
+	for chain := numBasicChains; chain < len(pipeChainNames); chain++ {
+		filter, body := pipeChain(chain, junkJPEG())
+		obj := fmt.Sprintf("<< /Type /XObject /Subtype /Image /Width 256 /Height 256 /ColorSpace /DeviceGray /BitsPerComponent 8 /Filter %s /Length %d >>\nstream\n%s\nendstream",
+			filter, len(body), string(body))
+		res = append(res, corpusEntry{"pipe-outer-image-" + pipeChainNames[chain], imageFile(obj)})
+	}
+	objs := sinkObjects()
+	for _, num := range []int{20, 21, 8, 12} {
+		for _, chain := range []int{4, 5, 8} {
+			res = append(res, corpusEntry{fmt.Sprintf("pipe-outer-sink-%s-%s", objs[num].site, pipeChainNames[chain]),
+				sinkFile(map[int]int{num: chain})})
+		}
+	}
+	for _, chain := range []int{4, 5, 6, 9} {
+		filter, body := pipeChain(chain, junkJPEG())
+		file := &osFile{streams: []osStream{{num: 3, extra: "/N 1 /First 4 /Filter " + filter,
+			members: []osMember{{10, ""}}, bodyOnly: string(body)}}}
+		res = append(res, corpusEntry{"pipe-outer-objstm-" + pipeChainNames[chain], file.build()})
+	}
+	return res
 }
 
 // ---------------------------------------------------------------------------
@@ -135,7 +186,7 @@ func (sp dctObjStmSpec) build() []byte {
 func pipeObjStmCorpus() []corpusEntry {
 	var res []corpusEntry
 	add := func(name string, sp dctObjStmSpec) {
-		res = append(res, corpusEntry{"pipe-objstm-" + name + "-" + pipeChainNames[sp.chain%4], sp.build()})
+		res = append(res, corpusEntry{"pipe-objstm-" + name + "-" + pipeChainNames[sp.chain%len(pipeChainNames)], sp.build()})
 	}
 	for chain := 0; chain < 4; chain++ {
 		add("index-ok-member-missing", dctObjStmSpec{k: 2, n: "2", chain: chain, wanted: 77})
@@ -252,8 +303,8 @@ func sinkObjects() map[int]sinkObj {
 		34: {dict: "", raw: "null"},
 		4:  {dict: "", body: []byte(content), site: "content"},
 		21: {dict: "", body: []byte("q /Fm0 Do Q\n"), site: "content2"},
-		5: {dict: "/Type /Font /Subtype /Type1 /BaseFont /Test /FirstChar 65 /LastChar 65 /Widths [500] /FontDescriptor 6 0 R /ToUnicode 8 0 R"},
-		6: {dict: "/Type /FontDescriptor /FontName /Test /Flags 4 /FontBBox [0 -200 1000 800] /ItalicAngle 0 /Ascent 800 /Descent -200 /CapHeight 700 /StemV 80 /FontFile 7 0 R"},
+		5:  {dict: "/Type /Font /Subtype /Type1 /BaseFont /Test /FirstChar 65 /LastChar 65 /Widths [500] /FontDescriptor 6 0 R /ToUnicode 8 0 R"},
+		6:  {dict: "/Type /FontDescriptor /FontName /Test /Flags 4 /FontBBox [0 -200 1000 800] /ItalicAngle 0 /Ascent 800 /Descent -200 /CapHeight 700 /StemV 80 /FontFile 7 0 R"},
 		7:  {dict: fmt.Sprintf("/Length1 %d /Length2 %d /Length3 0", l1, l2), body: fontBuf.Bytes(), site: "fontfile"},
 		8:  {dict: "", body: []byte(cmap), site: "tounicode"},
 		10: {dict: "/N 3 /Alternate /DeviceRGB", body: append([]byte("\x00\x00\x00\x80appl\x02\x10\x00\x00mntrRGB XYZ "), make([]byte, 104)...), site: "icc"},
@@ -453,7 +504,7 @@ func mPipeFilter(R *rand.Rand, d, _ []byte) ([]byte, string) {
 	inner = parmsEntryPat.ReplaceAll(inner, nil)
 	inner = filterEntryPat.ReplaceAll(inner, nil)
 	inner = lengthEntryPat.ReplaceAll(inner, nil)
-	chain := R.IntN(4)
+	chain := R.IntN(len(pipeChainNames))
 	j2 := junkJPEG()
 	if s.isObjStm && R.IntN(2) == 0 {
 		text, _ := dctObjStmText(1 + R.IntN(3))
